@@ -147,6 +147,7 @@ def _(c):
             [r[0] for r in fx if r[0] in ("ezsp.close", "ezsp.handle_callback")] == ["ezsp.close", "ezsp.handle_callback"],
         ),
     )
+    c.at_effect("ezsp.close", "link_still_held_for_closing", lambda self: self._gw is old(self._gw))
     c.modifies("self._gw", "self._callbacks.*")
 
 
@@ -155,6 +156,10 @@ def _(c):
     c.self(EZ)
     c.arg("exc", T.opaque)
     c.ensures("post.enters_failed_state_once", lambda fx: len([r for r in fx if r[0] == "ezsp.enter_failed_state"]) == 1)
+    # "the EZSP layer is stopped so that new commands ... write nothing to the port": the failure handling must still
+    # hold the link that was in place when the loss was reported -- it is what gets closed (for an EOF the port is
+    # still open and the ASH link below would go on retransmitting)
+    c.at_effect("ezsp.enter_failed_state", "link_still_held_for_closing", lambda self: self._gw is old(self._gw))
     c.modifies("self._gw", "self._callbacks.*")
 
 
@@ -239,9 +244,27 @@ def _(c):
     c.modifies()
 
 
+def _handler_of(k):
+    from pyvc.contracts import RecordT
+
+    return RecordT(k, frozen=False, _gw=T.opt(T.ext(GATEWAY_PROXY)), _seq=T.range(0, 255), _awaiting=T.map(T.opaque, card=True),
+                   tc_policy=T.int)
+
+
+# the handler in place when a switch is requested: none yet, or a handler of *any* version class (a switch to v4 after
+# a later reset starts from the handler the previous negotiation installed -- every newer class derives from EZSPv4, so
+# "is it already an instance of the requested class" is not "is it the requested class")
+EZ_SWITCH = ClassSpec(
+    "bellows.ezsp.EZSP",
+    fields={**EZ.fields, "_protocol": T.oneof(T.none, *[_handler_of(k) for _v, k in sorted(ezsp.EZSP._BY_VERSION.items())])},
+    invariants=[],
+    interference=["_callbacks"],
+)
+
+
 @contract("bellows.ezsp.EZSP._switch_protocol_version", props=["C09"])
 def _(c):
-    c.self(EZ_BRINGUP)
+    c.self(EZ_SWITCH)
     c.effect_name = "ezsp.switch_protocol_version"
     c.arg("version", T.range(4, 255))
     # "adopts the version the NCP reports - its own command tables for supported versions, the newest
